@@ -747,6 +747,28 @@ struct RenameV<'tcx> {
     shorthand_expr: std::collections::HashSet<Span>,
     shorthand_pat: std::collections::HashSet<Span>,
 }
+struct NoiseV<'tcx> {
+    tcx: TyCtxt<'tcx>,
+    stmts: Vec<Span>,
+}
+impl<'tcx> rustc_hir::intravisit::Visitor<'tcx> for NoiseV<'tcx> {
+    fn visit_block(&mut self, b: &'tcx rustc_hir::Block<'tcx>) {
+        // only blocks that are written as `{ .. }` in the source (proc-macro output re-uses foreign spans)
+        let sm = self.tcx.sess.source_map();
+        let real = match sm.span_to_snippet(b.span) {
+            Ok(sn) => sn.starts_with('{') && sn.ends_with('}'),
+            Err(_) => false,
+        };
+        if !b.span.from_expansion() && real {
+            for st in b.stmts {
+                if !st.span.from_expansion() && b.span.contains(st.span) && !matches!(st.kind, rustc_hir::StmtKind::Item(_)) {
+                    self.stmts.push(st.span);
+                }
+            }
+        }
+        rustc_hir::intravisit::walk_block(self, b);
+    }
+}
 struct Bind {
     name: String,
     decl: Vec<(Span, bool)>,
@@ -876,7 +898,28 @@ fn rename_facts(tcx: TyCtxt<'_>, out_dir: &str) {
             ]));
         }
     }
-    let root = J::Obj(vec![("crate", s(krate.clone())), ("bindings", J::Arr(all))]);
+    // statement starts (for the "noise" mutator: a no-op call inserted in front of every statement)
+    let mut stmts = Vec::new();
+    for ldid in tcx.hir_body_owners() {
+        if !matches!(tcx.def_kind(ldid.to_def_id()), DefKind::Fn | DefKind::AssocFn | DefKind::Closure) || tcx.def_span(ldid).from_expansion() {
+            continue;
+        }
+        if tcx.is_const_fn(ldid.to_def_id()) {
+            continue;
+        }
+        let body = tcx.hir_body_owned_by(ldid);
+        let mut nv = NoiseV { tcx, stmts: vec![] };
+        rustc_hir::intravisit::Visitor::visit_expr(&mut nv, body.value);
+        for sp in nv.stmts {
+            let lo = sm.lookup_byte_offset(sp.lo());
+            if let rustc_span::FileName::Real(r) = &lo.sf.name {
+                if let Some(p) = r.local_path() {
+                    stmts.push(J::Obj(vec![("file", s(p.to_string_lossy().to_string())), ("lo", J::Int(lo.pos.0 as i128))]));
+                }
+            }
+        }
+    }
+    let root = J::Obj(vec![("crate", s(krate.clone())), ("bindings", J::Arr(all)), ("stmts", J::Arr(stmts))]);
     let mut out = String::with_capacity(1 << 20);
     root.write(&mut out);
     let path = format!("{}/{}.rename.json", out_dir, krate);
